@@ -277,6 +277,10 @@ class GIRWriter(XMLWriter):
         attrs = []
         if return_.transfer:
             attrs.append(('transfer-ownership', return_.transfer))
+        elif return_.skip:
+            # a skipped return value needs no (transfer) annotation, but the
+            # attribute is mandatory in the GIR
+            attrs.append(('transfer-ownership', ast.PARAM_TRANSFER_NONE))
         if return_.skip:
             attrs.append(('skip', '1'))
         if return_.nullable and not return_.not_nullable:
